@@ -64,4 +64,20 @@ bool both_fit(const SymEngine::Integer &a, const SymEngine::Integer &b)
     return SymEngine::mp_fits_slong_p(a.as_integer_class())
            and SymEngine::mp_fits_slong_p(a.as_integer_class());
 }
+
+// R18.3: a find*() result used as a position without an npos test
+std::string tail_after_digits(const std::string &token)
+{
+    size_t length = token.find_first_not_of("0123456789.");
+    return token.substr(length);
+}
+
+// R12.7: unsigned fits-test, signed read
+double low_word(const SymEngine::Integer &x)
+{
+    if (SymEngine::mp_fits_ulong_p(x.as_integer_class())) {
+        return static_cast<double>(SymEngine::mp_get_si(x.as_integer_class()));
+    }
+    return 0.0;
+}
 } // namespace verif_positive
